@@ -55,11 +55,12 @@ func init() {
 		if len(b) > 0 {
 			pb = r.Intn(len(b) + 1)
 		}
-		sp := sess.Spec{Prompt: "> ", Mode: "emacs", Runs: 1, Width: w, Height: 60,
+		prompt := []string{"> ", "> ", "", "long$ "}[r.Intn(4)]
+		sp := sess.Spec{Prompt: prompt, Mode: "emacs", Runs: 1, Width: w, Height: 60,
 			Inject: []sess.Inject{{Seq: `\C-x\C-y0`, Line: string(a), Pos: pa}, {Seq: `\C-x\C-y1`, Line: string(b), Pos: pb}}}
 		sp.Chunks = []string{hex.EncodeToString([]byte("\x18\x190")), hex.EncodeToString([]byte("\x18\x191"))}
 		sp.ID = fmt.Sprintf("refreshsess-%d", r.Int63())
-		line := fmt.Sprintf("refresh2 %d %s %d %s %d", w, natsR(a), pa, natsR(b), pb)
+		line := fmt.Sprintf("refresh2 %d %s %d %s %d %s", w, natsR(a), pa, natsR(b), pb, natsR([]rune(prompt)))
 		class := "single"
 		if strings.ContainsRune(string(a)+string(b), '\n') {
 			class = "multiline"
@@ -88,6 +89,33 @@ func init() {
 				scr = fmt.Sprintf("XY:%d,%d SCR:%s", wt.CurVTE[1], wt.CurVTE[0], strings.Join(rows, "/"))
 			}
 			res = strings.Join(append(toks, scr), " ")
+			// C04, decided on the real code alone: every line of the buffer is on the screen, whole and in order
+			// (rows are full width, so that wrapped text is contiguous)
+			for _, em := range []struct {
+				name string
+				rows []string
+			}{{"vte", wt.VTE}, {"xterm", wt.Xterm}} {
+				var sb strings.Builder
+				for _, row := range em.rows {
+					rr := []rune(row)
+					for len(rr) < w {
+						rr = append(rr, ' ')
+					}
+					sb.WriteString(string(rr))
+				}
+				all, from := sb.String(), 0
+				for i, sub := range strings.Split(string(b), "\n") {
+					if sub == "" {
+						continue
+					}
+					k := strings.Index(all[from:], sub)
+					if k < 0 {
+						reportProp(fmt.Sprintf("buffer-text-not-on-screen/%s/prompt-width-%d/%s", class, len(prompt), em.name), fmt.Sprintf("width %d prompt %q: line %d of the buffer %q is not whole on the screen\n%s", w, prompt, i, string(b), strings.Join(trimRows(em.rows), "\n")), line)
+						break
+					}
+					from += k + len(sub)
+				}
+			}
 			// C04, decided on the real code alone: no remnants of the earlier frame — the screen is the one a
 			// session that displays B from an empty buffer shows
 			sp2 := sp
